@@ -65,6 +65,15 @@ def gen_dump(rng):
                 prog += [H.A('TRACE_DATA_THREAD_TERMINATE_PID', H.NONE, (rng.choice((100, 200, 888)), 5, 0, 0))]
             elif c < 0.5:
                 prog += H.sampler(0x1, 3, [H.thd_data(rng.choice((100, 300, 999)), rng.choice(tids + [undeclared]))])
+            elif c < 0.62:
+                # records that name stream threads / pids but do NOT declare anything (must leave the tables alone)
+                prog += [rng.choice((
+                    H.A('TRACE_DATA_THREAD_TERMINATE', H.NONE, (rng.choice(tids + [undeclared]), 0, 0, 0)),
+                    H.A('PERF_THD_CSwitch', H.NONE, (rng.choice(tids), rng.choice((100, 200, 4242)), 0, 0)),
+                    H.A('TRACE_STRING_PROC_EXIT', rng.choice((H.NONE, H.ALL)), H.name32(b'launchd')),
+                    H.A('MACH_MKRUNNABLE', H.NONE, (rng.choice(tids), 31, 0, 1)),
+                    H.A('MACH_DISPATCH', H.NONE, (rng.choice(tids), 0, 4, 1)),
+                ))]
             else:
                 prog += H.scenario(rng, keyspace, kinds=('syscall', 'path', 'fault', 'threadname', 'single'), private_keys=True)
         programs.append(prog)
